@@ -182,6 +182,20 @@ def ranges_in(v):
             yield from ranges_in(f)
 
 
+def ranges_parent_uri(v):
+    """Url aggregates inside an answer"""
+    v = deref_all(v)
+    if type(v) is Agg:
+        if v.ty == 'Url':
+            yield v.fields[0]
+            return
+        for f in v.fields:
+            yield from ranges_parent_uri(f)
+    elif type(v) is VecV:
+        for f in v.items:
+            yield from ranges_parent_uri(f)
+
+
 REQS = ['hover', 'definition', 'completion', 'token_at', 'token_prefix_at', 'cursor_in_string']
 
 
@@ -296,6 +310,30 @@ def harness_sessions(ctx, case):
         for d, k in script:
             res = ctx.call('ServerState::update_document', [r, uri[d], SESSION_TEXTS[k]])
             last[d] = (k, diagnostics(b, deref_all(res)))
+        # workspace-level answers come from the workspace index: after the history it must describe the current texts
+        def symbols(state_cell):
+            ws = b.field(state_cell.slot[0], 'lsp::ServerState', 'workspace')
+            res = ctx.call('lsp::collect_workspace_symbols', [ws, ''])
+            got = []
+            for si in deref_all(res).items:
+                si = deref_all(si)
+                name = [f for f in si.fields if type(deref_all(f)) is str][0]
+                rng = [range_of(b, r) for r in ranges_in(si)][0]
+                u = [deref_all(f) for f in ranges_parent_uri(si)]
+                got.append((str(deref_all(name)), u[0] if u else '', rng))
+            return sorted(got)
+        cf, rf = new_state()
+        for d in last:
+            ctx.call('ServerState::update_document', [rf, uri[d], SESSION_TEXTS[last[d][0]]])
+        out['asserts'] += 1
+        hs, fs_ = symbols(cell), symbols(cf)
+        if hs != fs_:
+            sc = [['change', {'A': 'a.ucg', 'B': 'b.ucg'}[dd], SESSION_TEXTS[kk]] for dd, kk in script] + [['symbols', 'a.ucg']]
+            out['violations'].append({'key': 'C20:sessions:stale-workspace-index:%s' % '-'.join(k for _, k in script),
+                                      'what': 'after the session %r the workspace symbols are %r, a fresh server on the final texts answers %r' % (script, hs, fs_),
+                                      'case': {'kind': 'lsp-session', 'docs': {'a.ucg': '', 'b.ucg': ''}, 'script': sc, 'final_texts': {{'A': 'a.ucg', 'B': 'b.ucg'}[d]: SESSION_TEXTS[last[d][0]] for d in last}},
+                                      'check': 'stale-symbols'})
+            return out
         for d, (k, diags) in last.items():
             c2, r2 = new_state()
             fresh = diagnostics(b, deref_all(ctx.call('ServerState::update_document', [r2, uri[d], SESSION_TEXTS[k]])))
@@ -352,6 +390,9 @@ def lsp_session(fw, case, timeout=60):
                 send({'jsonrpc': '2.0', 'method': 'textDocument/didChange', 'params': {'textDocument': {'uri': uri(n), 'version': 2}, 'contentChanges': [{'text': step[2]}]}})
             else:
                 rid += 1
+                if op == 'symbols':
+                    send({'jsonrpc': '2.0', 'id': rid, 'method': 'workspace/symbol', 'params': {'query': ''}})
+                    continue
                 meth = {'hover': 'textDocument/hover', 'definition': 'textDocument/definition', 'completion': 'textDocument/completion', 'semantic': 'textDocument/semanticTokens/full',
                         'token_at': 'textDocument/hover', 'token_prefix_at': 'textDocument/completion', 'cursor_in_string': 'textDocument/completion'}[op]
                 params = {'textDocument': {'uri': uri(n)}}
@@ -434,6 +475,13 @@ def judge(fw, v):
                 r = fw.native().cli(['build', 'main.ucg'], dd)
             return r['rc'] == 0 and bool(d)
         return True
+    if k == 'stale-symbols':
+        def names(sess):
+            r = (sess['responses'].get(1) or {}).get('result') or []
+            return sorted((x['name'], os.path.basename(x['location']['uri']), x['location']['range']['start']['line']) for x in r)
+        ft = v['case']['final_texts']
+        fresh = lsp_session(fw, {'docs': {'a.ucg': '', 'b.ucg': ''}, 'script': [['change', n, t] for n, t in ft.items()] + [['symbols', 'a.ucg']]})
+        return names(s) != names(fresh)
     if k == 'history':
         final = v['case']['final']
         fresh = lsp_session(fw, {'docs': {final: s['texts'][final]}, 'script': [['open', final]]})
